@@ -310,3 +310,57 @@ pub fn w3_simplifications(s: &W3Scn) -> Vec<W3Scn> {
     }
     out
 }
+
+// ---------------------------------------------------------------------------------------------
+// W4
+// ---------------------------------------------------------------------------------------------
+use crate::w4::W4Scn;
+
+/// list = agents ++ initial orders ++ injections
+pub fn w4_filtered(s: &W4Scn, keep: &[bool]) -> W4Scn {
+    let mut n = s.clone();
+    let (na, ni) = (s.agents.len(), s.initial.len());
+    n.agents = s.agents.iter().enumerate().filter(|(i, _)| keep[*i]).map(|(_, x)| x.clone()).collect();
+    n.initial = s.initial.iter().enumerate().filter(|(i, _)| keep[na + *i]).map(|(_, x)| *x).collect();
+    n.inject = s.inject.iter().enumerate().filter(|(i, _)| keep[na + ni + *i]).map(|(_, x)| *x).collect();
+    if n.agents.is_empty() {
+        // an agent-less simulation is not a smaller instance of the same scenario
+        n.agents = vec![s.agents[0].clone()];
+    }
+    n
+}
+
+pub fn w4_simplifications(s: &W4Scn) -> Vec<W4Scn> {
+    let mut out = vec![];
+    if s.cfg.path.is_empty() {
+        for k in [1, s.cfg.n_steps / 2, s.cfg.n_steps.saturating_sub(1)] {
+            if k >= 1 && k < s.cfg.n_steps {
+                let mut n = s.clone();
+                n.cfg.n_steps = k;
+                out.push(n);
+            }
+        }
+    } else {
+        for k in [2usize, s.cfg.path.len() / 2, s.cfg.path.len().saturating_sub(1)] {
+            if k >= 2 && k < s.cfg.path.len() {
+                let mut n = s.clone();
+                n.cfg.path.truncate(k);
+                n.cfg.n_steps = k as u64;
+                out.push(n);
+            }
+        }
+    }
+    if s.cfg.t0 != 0 {
+        let mut n = s.clone();
+        n.cfg.t0 = 0;
+        out.push(n);
+    }
+    if let Some(c) = &s.cfg.child {
+        if *c != crate::w4::ChildFlags::default() {
+            let mut n = s.clone();
+            n.cfg.child = Some(Default::default());
+            out.push(n);
+        }
+    }
+    out
+}
